@@ -53,9 +53,14 @@ def separate_input_attributes_from_arguments(
     onnx_attributes = collections.OrderedDict()
     has_variadic = False
 
+    num_inputs_seen = 0
+
     for i, param in enumerate(op_signature.params):
         is_input = param.is_param()
         is_variadic = is_input and param.variadic
+        if is_input:
+            input_position = num_inputs_seen
+            num_inputs_seen += 1
 
         if is_variadic:
             has_variadic = True
@@ -70,6 +75,9 @@ def separate_input_attributes_from_arguments(
                 onnx_attributes[param.name] = args[i]
         elif param.name in kwargs:
             if is_input:
+                # Optional inputs that were omitted before this one keep their slot
+                while len(onnx_inputs) < input_position:
+                    onnx_inputs.append(None)
                 onnx_inputs.append(kwargs[param.name])
             else:
                 onnx_attributes[param.name] = kwargs[param.name]
